@@ -33,6 +33,9 @@ def cases(tier):
                 out.append({'fn': 'run_machine', 'id': f'{OPS[first]}-{OPS[second]}/cleanup-{cl}',
                             'params': {'ops': [first, second], 'depth': depth, 'budget': budget, 'cleanup': cl}})
     out.append({'fn': 'run_module', 'id': 'module/HasStates', 'params': {}})
+    out.append({'fn': 'run_module_requests', 'id': 'module/stop-before-first-poll', 'params': {'scenario': 'stop-before-first-poll'}})
+    out.append({'fn': 'run_module_requests', 'id': 'module/finish-after-an-earlier-stop', 'params': {'scenario': 'finish-after-an-earlier-stop'}})
+    out.append({'fn': 'run_odd_callables', 'id': 'odd-callables', 'params': {}})
     return out
 
 
@@ -323,5 +326,116 @@ def run_module(env, p):
         env.check(int(m.status[0]) == 100 and m.status[1] == 'second done', K + '/final-status-of-restarted-run', m.status)
     if how == 0:
         env.check(int(m.status[0]) == 100 and m.status[1] == 'done', K + '/final-status', m.status)
+    for t in REQUIRED_TAGS:
+        env.note(t)
+
+
+def run_module_requests(env, p):
+    """requests arriving at a module built on HasStates at awkward moments"""
+    from frappy.core import Drivable, BUSY, IDLE
+    from frappy.states import HasStates, status_code, Retry, Finish
+    import frappy.lib.statemachine as smod
+    import threading
+    from frappy.modulebase import PollInfo
+    smod.time = C.VirtualClock(1000.0)
+    nretry = env.choice('nretry', 3)
+    calls = []
+
+    class Mod(HasStates, Drivable):
+        def write_target(self, value):
+            self.start_machine(self.driving if value < 5 else self.plain, n=nretry)
+            return value
+
+        @status_code(BUSY, 'driving')
+        def driving(self, sm):
+            calls.append('driving')
+            if sm.n > 0:
+                sm.n -= 1
+                return Retry
+            return self.final_status(IDLE, 'done')
+
+        @status_code(BUSY, 'plain')
+        def plain(self, sm):
+            calls.append('plain')
+            if sm.n > 0:
+                sm.n -= 1
+                return Retry
+            return Finish      # no explicit final status
+
+    srv = C.make_node({'m': {'cls': Mod, 'description': 'm'}})
+    m = srv.secnode.modules['m']
+    m.pollInfo = PollInfo(5, threading.Event())
+    K = 'C14/module/' + p['scenario']
+    if p['scenario'] == 'stop-before-first-poll':
+        m.write_target(1.0)
+        env.check(m.isBusy(m.status), K + '/not-busy-after-start', m.status)
+        m.stop()          # the last request is a stop: the run must not take place
+        for _ in range(nretry + 3):
+            m.doPoll()
+        env.check(not m._state_machine.is_active, K + '/machine-active-although-stop-was-the-last-request', calls)
+        env.check(not m.isBusy(m.status), K + '/busy-for-ever-after-stop', m.status)
+        env.check(calls == [], K + '/state-entered-after-stop', calls)
+    else:
+        m.write_target(1.0)
+        m.doPoll()
+        m.stop()
+        for _ in range(3):
+            m.doPoll()
+        env.check(not m.isBusy(m.status) and m.status[1] in ('stopped', 'done'), K + '/stopped-status', m.status)   # ('done': finished before the stop)
+        m.write_target(7.0)      # a new run that finishes normally, without an explicit final status
+        env.check(m.isBusy(m.status), K + '/not-busy-after-start', m.status)
+        for _ in range(nretry + 3):
+            m.doPoll()
+        env.check(not m._state_machine.is_active and not m.isBusy(m.status), K + '/busy-after-finish', m.status)
+        env.check(m.status[1] != 'stopped', K + '/finished-run-reported-as-stopped', m.status)
+    for t in REQUIRED_TAGS:
+        env.note(t)
+
+
+def run_odd_callables(env, p):
+    """one cycle never raises: state functions without a __name__ (functools.partial), attributes with reserved names"""
+    import functools
+    from frappy.lib.statemachine import StateMachine, Retry, Finish
+    import frappy.lib.statemachine as smod
+    smod.time = C.VirtualClock(1000.0)
+    K = 'C14/odd-callables'
+    behaviour = env.choice('behaviour', 4)    # 0 raises, 1 returns a non-callable, 2 retry then stop, 3 restart during it
+
+    def body(tag, sm):
+        if behaviour == 0:
+            raise ValueError('hw')
+        if behaviour == 1:
+            return 5
+        return Retry
+    sm = StateMachine(logger=C.LOG)
+    sm.start(functools.partial(body, 'a'), cleanup=functools.partial(lambda tag, sm: None, 'c'))
+    for i in range(3):
+        try:
+            sm.cycle()
+        except Exception as e:
+            env.fail(K + '/cycle-raised/' + type(e).__name__, [behaviour, i, repr(e)[:100]])
+            return
+        if behaviour == 2 and i == 0:
+            sm.stop()
+        if behaviour == 3 and i == 0:
+            sm.start(functools.partial(body, 'b'))
+    # attributes with reserved names are refused when they are requested, not inside the cycle
+    sm2 = StateMachine(logger=C.LOG)
+    name = ['now', 'cycle', 'statefunc', 'x'][env.choice('attr', 4)]
+    try:
+        sm2.start(lambda sm: Retry, **{name: 3})
+        refused = False
+    except Exception:
+        refused = True
+    try:
+        sm2.cycle()
+    except Exception as e:
+        env.fail(K + '/cycle-raised-for-reserved-attribute/' + type(e).__name__, [name, repr(e)[:100]])
+        return
+    if not refused:
+        env.check(name == 'x' and sm2.is_active and sm2.x == 3, K + '/reserved-attribute-accepted', name)
+    else:
+        env.check(name != 'x', K + '/ordinary-attribute-refused', name)
+        env.check(not sm2.is_active, K + '/machine-active-after-refused-start', name)
     for t in REQUIRED_TAGS:
         env.note(t)
